@@ -68,6 +68,11 @@ func (*cache).Get
     (c.hit - old(c.hit) - 1) % 4294967296 == 0 && c.miss == old(c.miss)
   ensures miss_nil: !old(haskey(c.items, strid(key))) ==> isnil(result0) &&
     (c.miss - old(c.miss) - 1) % 4294967296 == 0 && c.hit == old(c.hit)
+  // LRU: a hit makes the entry the most recently used one (the sentinel's
+  // predecessor); which entry is evicted first follows the list from the
+  // sentinel's successor (the full order of the list is not modelled)
+  ensures seq_hit_becomes_most_recent: c.conf.EnableLRU && old(haskey(c.items, strid(key))) ==>
+    addr(c, "usage").prev == addr(old(mapget(c.items, strid(key))), "used")
   ensures entries_unchanged: c.items == old(c.items) && c.size == old(c.size) &&
     (forall k: (haskey(c.items, k) <==> old(haskey(c.items, k))) && mapget(c.items, k) == old(mapget(c.items, k)))
 
